@@ -21,6 +21,8 @@ the loader's document or A's, depending on who comes first.  Threads that do not
 (callers passing `nil`) are covered by C16.
 -/
 import SpecModel.Cache.Lemmas
+import SpecModel.Cache.SideConditions
+import SpecModel.Generated.CacheFacts
 
 namespace SpecModel.Props.C17
 open SpecModel.Cache
@@ -213,5 +215,23 @@ example : Fair 2 (fun t => t % 2) := by
   exact ⟨2 * t + i, by omega, show (2 * t + i) % 2 = i by omega⟩
 
 end Examples
+
+/-! ### Side conditions on the Go source (regenerated facts, `decide`)
+
+The model's atomic `Get` / `Set` are the critical sections of `simpleCache`; the package-level cache is
+written once under `sync.Once` and only read (cloned) afterwards; nothing outside `simpleCache` touches its
+map.  These are the facts the data-race clause rests on besides the `-race` runs of the harness. -/
+
+open SpecModel.Cache.Side in
+theorem side_lock_discipline : lockDiscipline SpecModel.Gen.storeAccesses = true := by decide
+open SpecModel.Cache.Side in
+theorem side_get_set_present : getSetPresent SpecModel.Gen.storeAccesses = true := by decide
+theorem side_store_private : SpecModel.Gen.storeOutside = [] := by decide
+open SpecModel.Cache.Side in
+theorem side_init_only_once : initOnlyOnce SpecModel.Gen.initCalls = true := by decide
+open SpecModel.Cache.Side in
+theorem side_only_global_cloned : onlyGlobalCloned SpecModel.Gen.cloneCalls = true := by decide
+open SpecModel.Cache.Side in
+theorem side_pkgVars_stable : pkgVarsStable SpecModel.Gen.pkgVars = true := by decide
 
 end SpecModel.Props.C17
